@@ -150,6 +150,7 @@ func init() {
 			if x.m == nil {
 				return in.ts.ConstU(64, 0)
 			}
+			in.resolveLazyMap(x.m) // x_c03.go
 			return in.ts.ConstU(64, uint64(len(x.m.entries)))
 		}
 		panic(in.unsupported("reflect.Value.Len on " + r.typ.String()))
